@@ -415,7 +415,10 @@ impl ReadXml for Reply {
                     loop {
                         match reader.read_resolved_event()? {
                             (ResolveResult::Bound(xmlns::BASE), Event::Empty(tag))
-                                if tag.local_name().as_ref() == b"ok" && this.is_none() =>
+                                if tag.local_name().as_ref() == b"ok"
+                                    && this.is_none()
+                                    // warnings may precede `<ok/>`, errors may not
+                                    && !errors.iter().any(rpc::Error::is_error) =>
                             {
                                 tracing::debug!(?tag);
                                 this = Some(Self::Ok);
